@@ -39,14 +39,14 @@ var propTable = map[string]*propSpec{
 	},
 	"C01": {
 		ID:    "C01",
-		Rules: []string{"R-REGTABLE", "R-BITS", "R-DISPATCH", "R-NILNIL", "R-SCOPE", "R-PRIVREG", "R-PAREN", "R-EVALALL"},
+		Rules: []string{"R-REGTABLE", "R-BITS", "R-DISPATCH", "R-NILNIL", "R-SCOPE", "R-PRIVREG", "R-PAREN", "R-EVALALL", "R-ACC"},
 		Explanation: "Decides structural necessary conditions of 'compiled programs behave as the manual prescribes' — the agreements between the stages of the compile pipeline that must hold for every program, each of which, if broken, miscompiles some program: " +
 			"(R-BITS) every opcode field written by a code.mkType* constructor is read back bit-for-bit by its Get* decoder, fields are disjoint from each other and from the type prefix (symbolic bit-vector evaluation of the constructors and decoders); " +
 			"(R-DISPATCH) every operator constant an emitter can produce has a case in the interpreter loop, ircomp's operator maps send each ops.Op to the code operator of the same name and are total over what astcomp lets through, each interpreter case calls the runtime function of that operator, the Cont/Callable type switches name every implementer, and the compile-time processor witnesses exist; " +
 			"(R-NILNIL) no Lua-callable Go function returns (nil, nil), which the interpreter takes for 'finished'; " +
 			"(R-SCOPE) leaving a scope — by falling out of it, by break or by goto — emits a clear for every register captured as an upvalue, and the VM's clear installs a fresh cell (fresh variables per loop iteration); " +
 			"(R-PRIVREG) a register holding a value the program cannot name is never captured and never handed out twice; " +
-			"(R-PAREN) parentheses truncate every multi-valued expression type (call, '...') to one value; (R-EVALALL) an expression list is compiled in full, also the expressions beyond the number of targets.",
+			"(R-PAREN) parentheses truncate every multi-valued expression type (call, '...') to one value; (R-EVALALL) an expression list is compiled in full, also the expressions beyond the number of targets; (R-ACC) the vararg accumulator, whose backing array a frame's '...' shares, is only ever reset to nil or extended by append.",
 		NotDecided: "agreement of the implemented semantics with the manual's over all programs (values, evaluation order, the push/receive call protocol, register allocation correctness in general, jump resolution, metamethod selection and coercions): these quantify over program behaviour and are out of reach of a static argument here.",
 		Assumptions: []string{
 			"the frozen tables (operator ↔ runtime function, token ↔ operator) were transcribed from the manual and the code and confirmed by reading",
@@ -166,8 +166,8 @@ var propTable = map[string]*propSpec{
 	},
 	"C11": {
 		ID:          "C11",
-		Rules:       []string{"R-ERRFLOW", "R-KILL", "R-POOL"},
-		Explanation: "Decides structural necessary conditions of 'errors reach exactly the nearest protected call, with their value and position intact': no Lua-error-returning runtime operation has its error discarded (table-listed debug-hook triggers aside); every error return of the interpreter loop stores the program counter first (line attribution); a Go function's error is returned unchanged; the only frames that stop panics are the inventoried ones (pcall/xpcall/coroutine functions contain no recover and reach protected execution through CallContext) and none of them can swallow a termination; a continuation is not recycled on the error path (it is still needed for the traceback / message handler).",
+		Rules:       []string{"R-ERRFLOW", "R-KILL", "R-POOL", "R-RECURSION"},
+		Explanation: "Decides structural necessary conditions of 'errors reach exactly the nearest protected call, with their value and position intact': no Lua-error-returning runtime operation has its error discarded (table-listed debug-hook triggers aside); every error return of the interpreter loop stores the program counter first (line attribution); a Go function's error is returned unchanged; the only frames that stop panics are the inventoried ones (pcall/xpcall/coroutine functions contain no recover and reach protected execution through CallContext) and none of them can swallow a termination; a continuation is not recycled on the error path (it is still needed for the traceback / message handler). (R-RECURSION, guard shape only) The call-depth counters that a caught 'stack overflow' must leave balanced are decremented by a deferred call on every exit after their increment.",
 		NotDecided:  "identity of the error value through every path, the exact message prefixes, xpcall handler semantics, and consistency of the program state after a caught error.",
 		Assumptions: []string{"the list of Lua-error-returning runtime operations (luaErrorFuncs) was compiled by reading runtime/lib.go and thread.go"},
 	},
